@@ -123,7 +123,7 @@ pub proof fn lemma_wm_step(a: HashMap<InternalKeyspaceId, EvictionWatermark>, b:
 //@proof before match (watermarks.hof_get(*keyspace_id))
                     let ghost wm0 = *watermarks; let ghost tr0 = w.trees;
                     proof { assert(resolve(*old(w), *keyspace_id) == Some(handle.id)); assert(handle.id == *keyspace_id); }
-//@proof after handle.tree.clear(
+//@proof before @loop-end 2
                     proof { assert(wm_updated(wm0, *watermarks, *keyspace_id, batch.seqno, *handle)); lemma_wm_step(wm0, *watermarks, tr0, w.trees, *keyspace_id, batch.seqno, true, *handle); }
 //@proof before shim_slice_end
     proof {
